@@ -29,6 +29,8 @@ def run(ctx):
             cases.append((c[0] + i, [head] + rest[i:i + 500]))
     n, nev, rej = core.validate_cases(ctx, "plot", "PlotTrace", "PlotTrace.cfg", None, cases=cases, nshards=core.NCPU)
     report_rejections(ctx, rej, signature, "plot trace rejected by the C17 contract")
+    from . import rloop   # the loop of the plot command (spec/cli/CmdLoop.tla)
+    rloop.run_cmd_part(ctx, vh, md)
     summ = json.load(open(os.path.join(out, "c17.summary.json")))
     ctx.coverage.update({
         "traces_validated_against_impl": n, "trace_events": nev, "downsample_pairs": summ["downsample_pairs"], "plots": summ["plots"],
